@@ -15,7 +15,7 @@ ASSUMPTIONS = ["Model/Ref.lean and the Python reference peer (vlib/net21.py RefP
 
 
 def correspondence(ctx):
-    return corr21.run(ctx, 150 if ctx.quick else 5000, 20 if ctx.quick else 500, 3)
+    return corr21.run(ctx, ctx.n(150, 5000), ctx.n(20, 500), 3)
 
 
 def bam_cases(rng):
@@ -48,7 +48,7 @@ def bam_cases(rng):
 
 def oracle(ctx, full):
     rng = random.Random(ctx.seed * 7907 + 3)
-    n = 80 if (ctx.quick and not full) else 2500
+    n = ctx.n(80, 2500, full)
     findings, evals, distinct, samples = [], 0, set(), []
     for k in range(n):
         sub = random.Random(rng.getrandbits(48))
